@@ -735,6 +735,11 @@ func (e *rangeEngine) analyse(fn *ssa.Function, forceWiden bool) *fnRes {
 						if isIntType(phi.Type()) {
 							v := a.get(es, edge)
 							v = a.searchHitAdjust(phi, pi, v)
+							if ov, ok := a.e.siteOverride[fname(a.fn)+"|phi:"+phi.Comment]; ok && !v.bot {
+								if m := meetVal(v, ov); !m.bot {
+									v = m.withAx(v.ax | ov.ax)
+								}
+							}
 							ns.iv[phi] = v
 						} else if isFloatType(phi.Type()) {
 							ns.fv[phi] = a.getF(es, edge)
@@ -953,6 +958,9 @@ func (a *fnAnalysis) block(b *ssa.BasicBlock, st *rstate) {
 					v = addVal(l, r)
 				case token.SUB:
 					v = a.digitIdiom(st, x)
+					if v.bot {
+						v = a.remIdiom(st, x)
+					}
 					if v.bot {
 						v = subVal(l, r)
 					}
@@ -1545,6 +1553,37 @@ func (a *fnAnalysis) lenOf(st *rstate, v ssa.Value) aval {
 		}
 	}
 	return rangeVal(0, pinf)
+}
+
+// remIdiom: x - (x/c)*c (also written with a separately computed, structurally equal x) is x % c.
+func (a *fnAnalysis) remIdiom(st *rstate, x *ssa.BinOp) aval {
+	mul, ok := x.Y.(*ssa.BinOp)
+	if !ok || mul.Op != token.MUL {
+		return botVal()
+	}
+	try := func(q, k ssa.Value) aval {
+		quo, ok := q.(*ssa.BinOp)
+		if !ok || quo.Op != token.QUO {
+			return botVal()
+		}
+		c1, ok1 := constInt(k)
+		c2, ok2 := constInt(quo.Y)
+		if !ok1 || !ok2 || c1 != c2 || c1 <= 0 {
+			return botVal()
+		}
+		if quo.X != x.X && symExpr(a.e.c, quo.X, nil, map[ssa.Value]string{}, 0) != symExpr(a.e.c, x.X, nil, map[ssa.Value]string{}, 0) {
+			return botVal()
+		}
+		xv := a.get(st, x.X)
+		if xv.bot {
+			return botVal()
+		}
+		return remVal(xv, constVal(c1))
+	}
+	if v := try(mul.X, mul.Y); !v.bot {
+		return v
+	}
+	return try(mul.Y, mul.X)
 }
 
 // digitIdiom: []rune(s[i:i+1])[0] - '0' where s = fmt.Sprintf("%d", x) and x >= 0 is a digit 0..9.
